@@ -148,6 +148,9 @@ def run_check(prop, tier, seed):
     cap = float(os.environ.get('VERIF_WALL_CAP', WALL_CAP[tier]))
     t_end = t0 + cap
     descs = mod.shards(tier, seed)
+    flt = os.environ.get('VERIF_SHARD_FILTER')     # development aid only: run the shards whose JSON contains the text
+    if flt:
+        descs = [d for d in descs if flt in json.dumps(d)]
     total, errors = run_pool(modname, descs, t_end)
     if errors:
         print('HARNESS-ERROR in %d shard(s); first:' % len(errors))
